@@ -18,7 +18,7 @@ VARIABLES l, inc, sid, offered, drained
 mvars == <<obsVars, l, inc, sid, offered, drained>>
 
 Final(o) == o \in {"ok", "perm", "fail"}
-Universe == {"a", "b", "c", "d", "e", "f"}
+Universe == {"a", "b", "c", "d", "e", "f"} \cup {"w" \o ToString(i) : i \in 1..24}     \* w1..w24: the wide scripts (many requests in flight)
 
 MInit == ObsInit /\ l = 1 /\ inc = 0 /\ sid = "" /\ offered = {} /\ drained = FALSE
 
